@@ -90,22 +90,22 @@ func pct(t *rapid.T, label string, p int) bool {
 	return v >= 32-(p*32+50)/100
 }
 
-func genCons(t *rapid.T, i int) Cons {
+func genCons(t *rapid.T, i int, ix *siteIndex) Cons {
 	c := Cons{Mutates: rapid.Bool().Draw(t, "mutates")}
 	if c.Mutates {
-		c.Sync = genProgram(t, "sync", 3)
+		c.Sync = genProgram(t, "sync", 3, ix)
 		if pct(t, "marksync", 75) {
 			c.Sync = append([]Op{Mark(fmt.Sprintf("c%d.sync", i))}, c.Sync...)
 		}
 		if pct(t, "async?", 55) {
-			c.Async = genProgram(t, "async", 3)
+			c.Async = genProgram(t, "async", 3, ix)
 			if pct(t, "markasync", 85) {
 				c.Async = append([]Op{Mark(fmt.Sprintf("c%d.async", i))}, c.Async...)
 			}
 			c.Gate = rapid.SampledFrom([]int{-1, 0, 0, 1, 2, 9}).Draw(t, "gate")
 		}
 	} else if pct(t, "undeclared?", 35) {
-		c.Undeclared = genProgram(t, "undeclared", 2)
+		c.Undeclared = genProgram(t, "undeclared", 2, ix)
 		if len(c.Undeclared) == 0 || pct(t, "markundeclared", 50) {
 			c.Undeclared = append(c.Undeclared, Mark(fmt.Sprintf("c%d.undeclared", i)))
 		}
@@ -119,9 +119,13 @@ func genFan(t *rapid.T) FanScript {
 	s := FanScript{Signal: rapid.SampledFrom(sig.All).Draw(t, "signal")}
 	var next int64 = 1
 	s.Payload = sig.Gen(t, s.Signal, smallOpts(), &next)
+	var ix *siteIndex
+	if v, err := sig.Decode(s.Signal, s.Payload); err == nil {
+		ix = indexSites(v)
+	}
 	n := rapid.IntRange(1, 5).Draw(t, "nconsumers")
 	for i := 0; i < n; i++ {
-		s.Cons = append(s.Cons, genCons(t, i))
+		s.Cons = append(s.Cons, genCons(t, i, ix))
 	}
 	if pct(t, "nested", 30) {
 		groups := map[int][]int{}
@@ -155,7 +159,7 @@ func genFan(t *rapid.T) FanScript {
 	}
 	s.ReadOnly = pct(t, "readonly", 30)
 	if pct(t, "pre?", 30) {
-		s.Pre = genProgram(t, "pre", 3)
+		s.Pre = genProgram(t, "pre", 3, ix)
 	}
 	return s
 }
@@ -606,4 +610,7 @@ func runFan(s FanScript) (nontrivial bool, key string, f *vt.Finding) {
 	return nInv >= 2 && nMut >= 1 && changed, key, nil
 }
 
-func TestFanout(t *testing.T) { vt.Run(t, cFan, vt.N(6000, 150000), genFan, runFan) }
+func TestFanout(t *testing.T) {
+	defer flushOpReach(cFan)
+	vt.Run(t, cFan, vt.N(20000, 1500000), genFan, runFan)
+}
